@@ -17,17 +17,20 @@
 static int thorough;
 
 /* ------------------------------------------------------------------ part A */
-typedef struct { int kx; uint16_t suite; int cauth; const char *name; } a_cfg_t;
+typedef struct { int kx; uint16_t suite; int cauth; const char *name; int bogus_psk; } a_cfg_t;
 static const a_cfg_t acfgs[] = {
-    { KX_13_RSA, 0, 0, "tls13-rsa" },
-    { KX_13_PSK, 0, 0, "tls13-psk" },
-    { KX_13_ECDSA, 0, 1, "tls13-ecdsa-clientauth" },
-    { KX_13_RSA, TLS_AES_256_GCM_SHA384, 0, "tls13-rsa-aes256-sha384" },
+    { KX_13_RSA, 0, 0, "tls13-rsa", 0 },
+    { KX_13_PSK, 0, 0, "tls13-psk", 0 },
+    { KX_13_ECDSA, 0, 1, "tls13-ecdsa-clientauth", 0 },
+    { KX_13_RSA, TLS_AES_256_GCM_SHA384, 0, "tls13-rsa-aes256-sha384", 0 },
+    /* certificate handshakes whose ClientHello also carried a pre_shared_key the server could not use */
+    { KX_13_ECDSA, 0, 1, "tls13-ecdsa-clientauth-unknown-psk-offered", 1 },
+    { KX_13_RSA, 0, 0, "tls13-rsa-unknown-psk-offered", 1 },
 };
 #define NACFG ((int) (sizeof(acfgs) / sizeof(acfgs[0])))
 
-enum { D_NONE = 0, D_DELETE, D_DUP, D_SWAP, D_INJECT, D_APPDATA, D_NOFINRECOMP, D_NK };
-static const char *dname[] = { "none", "delete", "duplicate", "swap", "inject", "appdata-under-hs-keys", "delete-without-finished-recompute" };
+enum { D_NONE = 0, D_DELETE, D_DUP, D_SWAP, D_INJECT, D_APPDATA, D_NOFINRECOMP, D_DELETE2, D_NK };
+static const char *dname[] = { "none", "delete", "duplicate", "swap", "inject", "appdata-under-hs-keys", "delete-without-finished-recompute", "delete-two-consecutive" };
 static const int inj_types[] = { 0, 1, 2, 4, 5, 8, 11, 13, 15, 20, 24, 254 };
 #define NINJ ((int) (sizeof(inj_types) / sizeof(inj_types[0])))
 typedef struct { int kind, i, t; } dev_t2;
@@ -55,7 +58,7 @@ static int a_setup(a_ctx_t *g)
     int i, n, sl, it, k, sender = 1 - g->victim;
     uint16_t suite = ac->suite ? ac->suite : TLS_AES_128_GCM_SHA256;
     memset(&c, 0, sizeof(c));
-    c.ver = V_TLS13; c.kx = ac->kx; c.suite = ac->suite; c.client_auth = ac->cauth;
+    c.ver = V_TLS13; c.kx = ac->kx; c.suite = ac->suite; c.client_auth = ac->cauth; c.bogus_psk = ac->bogus_psk;
     g->hashlen = suite == TLS_AES_256_GCM_SHA384 ? 48 : 32;
     if (world_init(&g->w, &c) < 0)
     {
@@ -206,6 +209,10 @@ static void a_run_case(void *ctx, mx_result_t *r)
         if ((d->kind == D_DELETE || d->kind == D_NOFINRECOMP) && d->i == i)
         {
             continue;
+        }
+        if (d->kind == D_DELETE2 && (d->i == i || d->i + 1 == i))
+        {
+            continue; /* a whole group skipped, e.g. Certificate + CertificateVerify */
         }
         if (d->kind == D_SWAP && d->i == i && i + 1 < g->nm)
         {
@@ -560,6 +567,7 @@ static void run_group(long gi, void *unused)
             FORK(D_NOFINRECOMP, i, 0);
             FORK(D_DUP, i, 0);
             if (i + 1 < g.nm) FORK(D_SWAP, i, 0);
+            if (i + 2 < g.nm) FORK(D_DELETE2, i, 0);
         }
         for (i = 0; i <= g.nm; i++)
         {
